@@ -49,7 +49,7 @@ func prepareTextShards(ctx *Ctx, prop string, ncases int, reach []string, budget
 }
 
 // textCases is the number of schema cases in harness/text (NCases there).
-const textCases = 146
+const textCases = 147
 
 func textBudget(ctx *Ctx) float64 {
 	if ctx.Tier == "thorough" {
@@ -69,8 +69,8 @@ func PrepareC11(ctx *Ctx) (*Prepared, error) {
 	p.Jobs = append(p.Jobs, kj)
 	p.ExpectReach[kj.Name] = []string{"c11kw"}
 	p.Bounds = map[string]interface{}{
-		"cases":         "146 schema ASTs: 46 single-construct schemas (enums over every base type incl. negative hexadecimal members, [flags], structs with every type-expression form, readonly, integer and 4-character opcodes, messages, unions, consts of every literal form, imports, go_package, doc comments, block comments in bodies, deprecations on first/last/union members, end-of-line comments, consts followed by documented definitions, several tagged fields in one record) + all 100 ordered pairs of 10 attributed definition kinds (each pair one definition per line, each definition on one line, and both on the same line)",
-		"layouts":       "LF / CRLF, space / tab indentation, one-line / multi-line; one separator byte symbolic over {space, tab}",
+		"cases":         "147 schema ASTs: 47 single-construct schemas (enums over every base type incl. negative hexadecimal members, [flags], structs with every type-expression form, readonly, integer and 4-character opcodes, messages, unions, consts of every literal form, imports, go_package, doc comments, block comments in bodies, deprecations on first/last/union members, end-of-line comments, consts followed by documented definitions, several tagged fields in one record, doc comments in front of [flags] and [opcode]) + all 100 ordered pairs of 10 attributed definition kinds (each pair one definition per line, each definition on one line, and both on the same line)",
+		"layouts":       "LF / CRLF, space / tab indentation, one-line / multi-line; one separator byte symbolic over {space, tab}; nothing, a space or a tab between the end of a block comment and the line end",
 		"thorough":      "Deep mode: the first definition of every ordered pair and the structural cases keep their symbolic digits and identifier characters (quick: concrete), two identifier characters symbolic, all six layouts on every case without docs",
 		"keyword_names": "each of the 16 keywords as the name of an enum member, struct field, message field, union branch and definition: if the text is accepted the element is in the File under that name",
 		"outside":       "schemas outside the case list; comment placements other than directly above a definition, field or option; more than one symbolic character per identifier",
@@ -81,14 +81,14 @@ func PrepareC11(ctx *Ctx) (*Prepared, error) {
 
 func PrepareC16(ctx *Ctx) (*Prepared, error) {
 	p := prepareTextShards(ctx, "C16", textCases, nil, textBudget(ctx))
-	p.Bounds = map[string]interface{}{"cases": "the 146 schema ASTs of C11 restricted to texts ReadFile accepts, in the same layouts", "compared": "every File field except comments and comment-derived tags"}
+	p.Bounds = map[string]interface{}{"cases": "the 147 schema ASTs of C11 restricted to texts ReadFile accepts, in the same layouts", "compared": "every File field except comments and comment-derived tags"}
 	p.Explanation = "bounded symbolic execution of bebop.Format followed by bebop.ReadFile on its output; the two Files must be equal up to comments"
 	return p, nil
 }
 
 func PrepareC17(ctx *Ctx) (*Prepared, error) {
 	p := prepareTextShards(ctx, "C17", textCases, nil, textBudget(ctx))
-	p.Bounds = map[string]interface{}{"cases": "the 146 schema ASTs of C11 restricted to texts ReadFile accepts and Format processes without error"}
+	p.Bounds = map[string]interface{}{"cases": "the 147 schema ASTs of C11 restricted to texts ReadFile accepts and Format processes without error"}
 	p.Explanation = "bounded symbolic execution of bebop.Format applied twice; the two outputs are compared byte for byte (symbolic bytes included)"
 	return p, nil
 }
